@@ -308,4 +308,20 @@ func init() {
 		Old:    "\t\t\texpectedType := functionSignature.Parameters[i-1].Type",
 		New:    "\t\t\texpectedType := functionSignature.Parameters[i].Type",
 		Expect: "(*process.CallForm).typecheckForm | type-comparison#1"})
+	addFixture(Fixture{Name: "drop-does-not-continue", Rule: "R-CONTINUES", File: "process/transition.go",
+		Old:    "\t\tprocess.Body = f.continuation_e\n\t\tprocess.transitionLoop(re)\n\t}\n\n\tTransitionInternally(process, dropRule, re)",
+		New:    "\t\tprocess.Body = f.continuation_e\n\t}\n\n\tTransitionInternally(process, dropRule, re)",
+		Expect: "(*process.DropForm).Transition"})
+	addFixture(Fixture{Name: "drop-spawns-before-the-step", Rule: "R-STEP-ATOMIC", File: "process/transition.go",
+		Old:    "\tdropRule := func() {\n",
+		New:    "\tcreateDroppableForwardFromClient(process, re, f.client_c).SpawnThenTransition(re)\n\tdropRule := func() {\n",
+		Expect: "(*process.DropForm).Transition | Transition:before-TransitionInternally"})
+	addFixture(Fixture{Name: "call-argument-type-on-a-copy", Rule: "R-TYPE-RECORDED", File: "process/typechecker.go",
+		Old:    "\t\tfor i := 0; i < len(p.parameters); i++ {\n\t\t\tfoundParamType, paramTypeError := consumeName(p.parameters[i], gammaNameTypesCtx)",
+		New:    "\t\tfor i, argument := range p.parameters {\n\t\t\tdefer func(n Name) { n.Type = nil }(argument)\n\t\t\tfoundParamType, paramTypeError := consumeName(argument, gammaNameTypesCtx)",
+		Expect: "type-of:"})
+	addFixture(Fixture{Name: "cycle-check-not-called", Rule: "R-CONFIG-ACYCLIC", File: "process/typechecker.go",
+		Old:    "\tif err := checkProcessesAcyclic(processes); err != nil {\n\t\treturn err\n\t}\n",
+		New:    "\tif false {\n\t\t_ = checkProcessesAcyclic(processes)\n\t}\n",
+		Expect: "cycle-"})
 }
